@@ -1,15 +1,30 @@
 (* The JSON wire format of the five rule schemas (ext/datasource/helper.go *JsonArrayParser,
-   hotspot_rule_converter.go HotspotRule/SpecificValue): an encoder and a decoder over a strict
-   JSON subset — an array of objects whose members are strings, numbers or (hotspot's
-   specificItems) an array of flat objects; compact, no whitespace, no escapes in strings.
-   Numbers stay decimal literals: integer fields are Z printed canonically, float64 fields keep
-   the literal (the literal <-> float64 conversion is strconv, an oracle outside the model).
+   hotspot_rule_converter.go HotspotRule / SpecificValue / parseSpecificItems), modelled in two
+   layers.
 
-   The decoder is schema driven: members may come in any order, unknown members are ignored,
-   the first occurrence of a key wins, every schema key must be present.
+   Layer 1 — JSON: generic value trees, a compact printer, and a parser for the JSON grammar
+   (objects, arrays, strings, numbers, true/false/null, whitespace between tokens) over the byte
+   alphabet `in_subset`: printable ASCII without the backslash (so no string escapes), plus tab, LF,
+   CR as whitespace.  Numbers stay decimal literals (validated against the JSON number grammar).
+
+   Layer 2 — schema-directed decoding, transcribing what encoding/json does when it unmarshals
+   into []*Rule: the document must be an array (or null); an element is an object (a fresh rule
+   starting from the zero values) or null (a nil pointer); the members of an object are applied
+   in order — a member whose key equals a schema key up to ASCII case sets that field (so the last
+   occurrence wins), null leaves the field alone (a slice field is reset), a value of the wrong
+   JSON type, an integer literal that is not an integer or does not fit the field's Go type makes
+   the whole payload undecodable, unknown members are skipped.  float64 fields keep their literal
+   (literal <-> float64 is strconv, an oracle outside the model).  hotspot's specificItems is an
+   array of {valKind, valStr, threshold} objects; `conv_items` transcribes parseSpecificItems
+   (Atoi / ParseBool exactly, the float kind through an oracle table).
+
+   Outside the model (documented in design_notes/C18.md): string escapes and non-ASCII bytes
+   (`in_subset` = false), float literals whose exponent has three or more digits (overflow is
+   strconv's business; `in_subset` = false), and a second occurrence of the key specificItems in
+   one object (encoding/json reuses the previous slice elements).
 
    No proofs in this file. *)
-From Coq Require Import Ascii DecimalString DecimalZ Decimal.
+From Coq Require Import Ascii String DecimalString DecimalZ Decimal.
 From SG Require Import Base.Prelude.
 
 Definition jbytes := list ascii.
@@ -24,45 +39,70 @@ Fixpoint la_eqb (a b : jbytes) : bool :=
 
 (* ---- syntax trees ------------------------------------------------------------------------- *)
 
-Inductive scalar := SNum (tok : jbytes) | SStr (s : jbytes).
-Definition flat := list (jbytes * scalar).                       (* object with scalar members *)
-Inductive value := VS (x : scalar) | VA (items : list flat).     (* scalar or array of flat objects *)
-Definition obj := list (jbytes * value).
-Definition doc := list obj.
+Inductive jv :=
+| JNull
+| JBool (b : bool)
+| JNum (tok : jbytes)
+| JStr (s : jbytes)
+| JArr (items : list jv)
+| JObj (members : list (jbytes * jv)).
 
-(* ---- printer -------------------------------------------------------------------------------- *)
+(* ---- printer (compact) ---------------------------------------------------------------------- *)
 
 Definition q : ascii := """"%char.
 Definition quote (s : jbytes) : jbytes := q :: s ++ [q].
 
-Definition pr_scalar (x : scalar) : jbytes :=
-  match x with SNum t => t | SStr s => quote s end.
+Section Printer.
+  Context {A : Type} (pv : A -> jbytes).
 
-Fixpoint pr_members {A} (pv : A -> jbytes) (l : list (jbytes * A)) : jbytes :=
-  match l with
-  | [] => []
-  | [(k, v)] => quote k ++ ":"%char :: pv v
-  | (k, v) :: r => quote k ++ ":"%char :: pv v ++ ","%char :: pr_members pv r
+  Fixpoint pr_members (l : list (jbytes * A)) : jbytes :=
+    match l with
+    | [] => []
+    | (k, v) :: r =>
+        match r with
+        | [] => quote k ++ ":"%char :: pv v
+        | _ :: _ => quote k ++ ":"%char :: pv v ++ ","%char :: pr_members r
+        end
+    end.
+
+  Fixpoint pr_elems (l : list A) : jbytes :=
+    match l with
+    | [] => []
+    | x :: r =>
+        match r with
+        | [] => pv x
+        | _ :: _ => pv x ++ ","%char :: pr_elems r
+        end
+    end.
+
+  Definition pr_object (l : list (jbytes * A)) : jbytes := "{"%char :: pr_members l ++ ["}"%char].
+  Definition pr_array (l : list A) : jbytes := "["%char :: pr_elems l ++ ["]"%char].
+End Printer.
+
+Fixpoint pr_jv (v : jv) : jbytes :=
+  match v with
+  | JNull => B "null"
+  | JBool true => B "true"
+  | JBool false => B "false"
+  | JNum t => t
+  | JStr s => quote s
+  | JArr l => pr_array pr_jv l
+  | JObj m => pr_object pr_jv m
   end.
-
-Fixpoint pr_elems {A} (pe : A -> jbytes) (l : list A) : jbytes :=
-  match l with
-  | [] => []
-  | [x] => pe x
-  | x :: r => pe x ++ ","%char :: pr_elems pe r
-  end.
-
-Definition pr_object {A} (pv : A -> jbytes) (l : list (jbytes * A)) : jbytes :=
-  "{"%char :: pr_members pv l ++ ["}"%char].
-Definition pr_array {A} (pe : A -> jbytes) (l : list A) : jbytes :=
-  "["%char :: pr_elems pe l ++ ["]"%char].
-
-Definition pr_value (v : value) : jbytes :=
-  match v with VS x => pr_scalar x | VA items => pr_array (pr_object pr_scalar) items end.
-
-Definition pr_doc (d : doc) : jbytes := pr_array (pr_object pr_value) d.
 
 (* ---- lexer ------------------------------------------------------------------------------------ *)
+
+Definition is_ws (c : ascii) : bool :=
+  match c with
+  | " " | "009" | "010" | "013" => true
+  | _ => false
+  end%char.
+
+Fixpoint skip_ws (s : jbytes) : jbytes :=
+  match s with
+  | c :: r => if is_ws c then skip_ws r else s
+  | [] => []
+  end.
 
 Definition is_digit (c : ascii) : bool :=
   match c with
@@ -100,17 +140,6 @@ Fixpoint span_num (s : jbytes) : jbytes * jbytes :=
   match s with
   | c :: r => if is_numchar c then let '(t, r') := span_num r in (c :: t, r') else ([], s)
   | [] => ([], [])
-  end.
-
-Definition p_scalar (s : jbytes) : option (scalar * jbytes) :=
-  match s with
-  | c :: r =>
-      if Ascii.eqb c q then
-        match scan_str r with Some (x, r') => Some (SStr x, r') | None => None end
-      else
-        let '(t, r') := span_num s in
-        match t with [] => None | _ => Some (SNum t, r') end
-  | [] => None
   end.
 
 (* the JSON number grammar: optional minus; 0 or a non-zero digit followed by digits; optional
@@ -154,102 +183,129 @@ Definition numlit_ok (s : jbytes) : bool :=
   | [] => false
   end.
 
-(* ---- parser (fuel = an upper bound on the number of members / elements) --------------------- *)
+(* `w` is a prefix of `s`: the rest *)
+Fixpoint p_lit (w s : jbytes) : option jbytes :=
+  match w with
+  | [] => Some s
+  | c :: w' =>
+      match s with
+      | d :: s' => if Ascii.eqb c d then p_lit w' s' else None
+      | [] => None
+      end
+  end.
+
+(* ---- parser ----------------------------------------------------------------------------------- *)
 
 Definition parser (A : Type) := jbytes -> option (A * jbytes).
 
-(* members after the opening brace, up to and including the closing brace (at least one) *)
-Fixpoint p_members {A} (pv : parser A) (fuel : nat) (s : jbytes) : option (list (jbytes * A) * jbytes) :=
-  match fuel with
-  | O => None
-  | S f =>
-      match p_str s with
-      | Some (k, c :: r) =>
-          if Ascii.eqb c ":"%char then
-            match pv r with
-            | Some (v, d :: r2) =>
-                if Ascii.eqb d ","%char then
-                  match p_members pv f r2 with
-                  | Some (l, r3) => Some ((k, v) :: l, r3)
+Section Loops.
+  Context {A : Type} (pv : parser A).     (* pv skips leading whitespace itself *)
+
+  (* members up to and including the closing brace (at least one); fuel bounds their number *)
+  Fixpoint p_members (fuel : nat) (s : jbytes) : option (list (jbytes * A) * jbytes) :=
+    match fuel with
+    | O => None
+    | S f =>
+        match p_str (skip_ws s) with
+        | Some (k, r0) =>
+            match skip_ws r0 with
+            | c :: r =>
+                if Ascii.eqb c ":"%char then
+                  match pv r with
+                  | Some (v, r1) =>
+                      match skip_ws r1 with
+                      | d :: r2 =>
+                          if Ascii.eqb d ","%char then
+                            match p_members f r2 with
+                            | Some (l, r3) => Some ((k, v) :: l, r3)
+                            | None => None
+                            end
+                          else if Ascii.eqb d "}"%char then Some ([(k, v)], r2)
+                          else None
+                      | [] => None
+                      end
                   | None => None
                   end
-                else if Ascii.eqb d "}"%char then Some ([(k, v)], r2)
                 else None
-            | _ => None
+            | [] => None
             end
-          else None
-      | _ => None
-      end
-  end.
+        | None => None
+        end
+    end.
 
-Definition p_object {A} (pv : parser A) (fuel : nat) : parser (list (jbytes * A)) :=
-  fun s =>
-    match s with
-    | c :: r =>
-        if Ascii.eqb c "{"%char then
-          match r with
-          | d :: r' => if Ascii.eqb d "}"%char then Some ([], r') else p_members pv fuel r
-          | [] => None
-          end
-        else None
+  (* after the opening brace *)
+  Definition p_object (fuel : nat) (s : jbytes) : option (list (jbytes * A) * jbytes) :=
+    match skip_ws s with
+    | d :: r' => if Ascii.eqb d "}"%char then Some ([], r') else p_members fuel (d :: r')
     | [] => None
     end.
 
-Fixpoint p_elems {A} (pe : parser A) (fuel : nat) (s : jbytes) : option (list A * jbytes) :=
+  Fixpoint p_elems (fuel : nat) (s : jbytes) : option (list A * jbytes) :=
+    match fuel with
+    | O => None
+    | S f =>
+        match pv s with
+        | Some (x, r0) =>
+            match skip_ws r0 with
+            | d :: r =>
+                if Ascii.eqb d ","%char then
+                  match p_elems f r with
+                  | Some (l, r2) => Some (x :: l, r2)
+                  | None => None
+                  end
+                else if Ascii.eqb d "]"%char then Some ([x], r)
+                else None
+            | [] => None
+            end
+        | None => None
+        end
+    end.
+
+  (* after the opening bracket *)
+  Definition p_array (fuel : nat) (s : jbytes) : option (list A * jbytes) :=
+    match skip_ws s with
+    | d :: r' => if Ascii.eqb d "]"%char then Some ([], r') else p_elems fuel (d :: r')
+    | [] => None
+    end.
+End Loops.
+
+(* fuel bounds the nesting depth; the member / element loops are bounded by the input length *)
+Fixpoint p_jv (fuel : nat) (s : jbytes) : option (jv * jbytes) :=
   match fuel with
   | O => None
   | S f =>
-      match pe s with
-      | Some (x, d :: r) =>
-          if Ascii.eqb d ","%char then
-            match p_elems pe f r with
-            | Some (l, r2) => Some (x :: l, r2)
-            | None => None
-            end
-          else if Ascii.eqb d "]"%char then Some ([x], r)
-          else None
-      | _ => None
+      match skip_ws s with
+      | [] => None
+      | c :: r =>
+          if Ascii.eqb c "{"%char then
+            match p_object (p_jv f) (length r) r with Some (m, r') => Some (JObj m, r') | None => None end
+          else if Ascii.eqb c "["%char then
+            match p_array (p_jv f) (length r) r with Some (l, r') => Some (JArr l, r') | None => None end
+          else if Ascii.eqb c q then
+            match scan_str r with Some (x, r') => Some (JStr x, r') | None => None end
+          else if Ascii.eqb c "n"%char then
+            match p_lit (B "ull") r with Some r' => Some (JNull, r') | None => None end
+          else if Ascii.eqb c "t"%char then
+            match p_lit (B "rue") r with Some r' => Some (JBool true, r') | None => None end
+          else if Ascii.eqb c "f"%char then
+            match p_lit (B "alse") r with Some r' => Some (JBool false, r') | None => None end
+          else
+            let '(t, r') := span_num (c :: r) in
+            if numlit_ok t then Some (JNum t, r') else None
       end
   end.
 
-Definition p_array {A} (pe : parser A) (fuel : nat) : parser (list A) :=
-  fun s =>
-    match s with
-    | c :: r =>
-        if Ascii.eqb c "["%char then
-          match r with
-          | d :: r' => if Ascii.eqb d "]"%char then Some ([], r') else p_elems pe fuel r
-          | [] => None
-          end
-        else None
-    | [] => None
-    end.
-
-Definition p_value (fuel : nat) : parser value :=
-  fun s =>
-    match s with
-    | c :: _ =>
-        if Ascii.eqb c "["%char then
-          match p_array (p_object p_scalar fuel) fuel s with
-          | Some (items, r) => Some (VA items, r)
-          | None => None
-          end
-        else
-          match p_scalar s with Some (x, r) => Some (VS x, r) | None => None end
-    | [] => None
-    end.
-
-Definition p_doc (fuel : nat) : parser doc := p_array (p_object (p_value fuel) fuel) fuel.
-
-Definition parse (s : jbytes) : option doc :=
-  match p_doc (length s) s with
-  | Some (d, []) => Some d
-  | _ => None
+Definition parse (s : jbytes) : option jv :=
+  match p_jv (length s) s with
+  | Some (v, r) => match skip_ws r with [] => Some v | _ => None end
+  | None => None
   end.
 
 (* ---- schemas ---------------------------------------------------------------------------------- *)
 
-Inductive ftype := TStr | TInt | TNum | TItems.
+(* TInt lo hi: a Go integer type with that range (a literal with a minus sign is refused by an
+   unsigned type, strconv.ParseUint) *)
+Inductive ftype := TStr | TInt (lo hi : Z) | TNum | TItems.
 
 (* hotspot SpecificValue: valKind, valStr, threshold *)
 Definition item := (Z * jbytes * Z)%type.
@@ -263,132 +319,203 @@ Inductive fval :=
 Definition schema := list (jbytes * ftype).
 Definition wrule := list fval.       (* one value per schema field, in schema order *)
 
+Definition i32 := TInt (-2147483648) 2147483647.
+Definition u32 := TInt 0 4294967295.
+Definition i64 := TInt (-9223372036854775808) 9223372036854775807.
+Definition u64 := TInt 0 18446744073709551615.
+
 Definition print_int (z : Z) : jbytes := B (NilZero.string_of_int (Z.to_int z)).
 
-(* canonical decimal integers only: what print_int prints *)
+(* the integers of the JSON number grammar: canonical decimal, or "-0" *)
 Definition parse_int (t : jbytes) : option Z :=
   match NilZero.int_of_string (string_of_list_ascii t) with
-  | Some d => let z := Z.of_int d in if la_eqb (print_int z) t then Some z else None
+  | Some d =>
+      let z := Z.of_int d in
+      if la_eqb (print_int z) t then Some z
+      else if la_eqb t (B "-0") then Some 0
+      else None
   | None => None
   end.
 
-Definition item_keys : list jbytes := [B "valKind"; B "valStr"; B "threshold"].
-
-Definition enc_item (it : item) : flat :=
-  let '(k, s, t) := it in
-  [(B "valKind", SNum (print_int k)); (B "valStr", SStr s); (B "threshold", SNum (print_int t))].
-
-Definition enc_val (v : fval) : value :=
-  match v with
-  | FStr s => VS (SStr s)
-  | FInt z => VS (SNum (print_int z))
-  | FNum lit => VS (SNum lit)
-  | FItems l => VA (map enc_item l)
+Definition dec_int (lo hi : Z) (t : jbytes) : option Z :=
+  match parse_int t with
+  | Some z =>
+      let neg := match t with c :: _ => Ascii.eqb c "-"%char | [] => false end in
+      if (lo <=? z) && (z <=? hi) && (negb neg || (lo <? 0)) then Some z else None
+  | None => None
   end.
 
-Fixpoint enc_rule (sch : schema) (r : wrule) : obj :=
+(* ---- encoder ------------------------------------------------------------------------------------ *)
+
+Definition enc_item (it : item) : jv :=
+  let '(k, s, t) := it in
+  JObj [(B "valKind", JNum (print_int k)); (B "valStr", JStr s); (B "threshold", JNum (print_int t))].
+
+Definition enc_val (v : fval) : jv :=
+  match v with
+  | FStr s => JStr s
+  | FInt z => JNum (print_int z)
+  | FNum lit => JNum lit
+  | FItems l => JArr (map enc_item l)
+  end.
+
+Fixpoint enc_members (sch : schema) (r : wrule) : list (jbytes * jv) :=
   match sch, r with
-  | (k, _) :: sch', v :: r' => (k, enc_val v) :: enc_rule sch' r'
+  | (k, _) :: sch', v :: r' => (k, enc_val v) :: enc_members sch' r'
   | _, _ => []
   end.
 
-Definition encode (sch : schema) (l : list wrule) : jbytes := pr_doc (map (enc_rule sch) l).
+Definition enc_rule (sch : schema) (r : wrule) : jv := JObj (enc_members sch r).
 
-Fixpoint lookup {A} (k : jbytes) (l : list (jbytes * A)) : option A :=
-  match l with
-  | [] => None
-  | (k', v) :: r => if la_eqb k k' then Some v else lookup k r
-  end.
+Definition encode (sch : schema) (l : list wrule) : jbytes := pr_jv (JArr (map (enc_rule sch) l)).
 
-Definition dec_item (f : flat) : option item :=
-  match lookup (B "valKind") f, lookup (B "valStr") f, lookup (B "threshold") f with
-  | Some (SNum a), Some (SStr s), Some (SNum b) =>
-      match parse_int a, parse_int b with
-      | Some k, Some t => Some (k, s, t)
-      | _, _ => None
-      end
-  | _, _, _ => None
-  end.
+(* ---- decoder ------------------------------------------------------------------------------------ *)
 
-Fixpoint dec_items (l : list flat) : option (list item) :=
-  match l with
-  | [] => Some []
-  | f :: r =>
-      match dec_item f, dec_items r with
-      | Some i, Some is => Some (i :: is)
-      | _, _ => None
-      end
-  end.
+Definition lower (c : ascii) : ascii :=
+  let n := nat_of_ascii c in
+  if (65 <=? n)%nat && (n <=? 90)%nat then ascii_of_nat (n + 32) else c.
 
-Definition dec_val (ty : ftype) (v : value) : option fval :=
-  match ty, v with
-  | TStr, VS (SStr s) => Some (FStr s)
-  | TInt, VS (SNum t) => match parse_int t with Some z => Some (FInt z) | None => None end
-  | TNum, VS (SNum t) => if numlit_ok t then Some (FNum t) else None
-  | TItems, VA items => match dec_items items with Some l => Some (FItems l) | None => None end
-  | _, _ => None
-  end.
+(* encoding/json matches member names to field names up to ASCII case *)
+Definition key_eqb (a b : jbytes) : bool := la_eqb (map lower a) (map lower b).
 
-Fixpoint dec_rule (sch : schema) (o : obj) : option wrule :=
-  match sch with
-  | [] => Some []
-  | (k, ty) :: sch' =>
-      match lookup k o with
-      | Some v =>
-          match dec_val ty v, dec_rule sch' o with
-          | Some x, Some r => Some (x :: r)
-          | _, _ => None
-          end
+Definition int_lo : Z := -9223372036854775808.   (* Go int on a 64-bit platform *)
+Definition int_hi : Z := 9223372036854775807.
+
+Definition dflt_item : item := (0, [], 0).
+
+Definition set_item (k : jbytes) (v : jv) (it : item) : option item :=
+  let '(a, s, t) := it in
+  if key_eqb k (B "valKind") then
+    match v with
+    | JNull => Some it
+    | JNum n => match dec_int int_lo int_hi n with Some z => Some (z, s, t) | None => None end
+    | _ => None
+    end
+  else if key_eqb k (B "valStr") then
+    match v with
+    | JNull => Some it
+    | JStr x => Some (a, x, t)
+    | _ => None
+    end
+  else if key_eqb k (B "threshold") then
+    match v with
+    | JNull => Some it
+    | JNum n => match dec_int int_lo int_hi n with Some z => Some (a, s, z) | None => None end
+    | _ => None
+    end
+  else Some it.
+
+(* apply the members of an object in order *)
+Fixpoint dec_members {T} (setf : jbytes -> jv -> T -> option T) (m : list (jbytes * jv)) (cur : T) : option T :=
+  match m with
+  | [] => Some cur
+  | (k, v) :: r =>
+      match setf k v cur with
+      | Some c => dec_members setf r c
       | None => None
       end
   end.
 
-Fixpoint dec_rules (sch : schema) (d : doc) : option (list wrule) :=
-  match d with
+Definition dec_item (v : jv) : option item :=
+  match v with
+  | JNull => Some dflt_item                    (* []SpecificValue: null leaves the zero struct *)
+  | JObj m => dec_members set_item m dflt_item
+  | _ => None
+  end.
+
+Fixpoint dec_all {T} (f : jv -> option T) (l : list jv) : option (list T) :=
+  match l with
   | [] => Some []
-  | o :: r =>
-      match dec_rule sch o, dec_rules sch r with
-      | Some x, Some l => Some (x :: l)
+  | x :: r =>
+      match f x, dec_all f r with
+      | Some y, Some ys => Some (y :: ys)
       | _, _ => None
       end
   end.
 
-Inductive dres := Undecodable | Empty | Rules (l : list wrule).
+Definition dec_val (ty : ftype) (v : jv) : option fval :=
+  match ty, v with
+  | TStr, JStr s => Some (FStr s)
+  | TInt lo hi, JNum t => match dec_int lo hi t with Some z => Some (FInt z) | None => None end
+  | TNum, JNum t => Some (FNum t)
+  | TItems, JArr l => match dec_all dec_item l with Some is => Some (FItems is) | None => None end
+  | _, _ => None
+  end.
+
+Definition dflt (ty : ftype) : fval :=
+  match ty with
+  | TStr => FStr []
+  | TInt _ _ => FInt 0
+  | TNum => FNum (B "0")
+  | TItems => FItems []
+  end.
+
+Definition defaults (sch : schema) : wrule := map (fun kt => dflt (snd kt)) sch.
+
+Fixpoint set_field (sch : schema) (k : jbytes) (v : jv) (cur : wrule) : option wrule :=
+  match sch, cur with
+  | (k', ty) :: sch', x :: cur' =>
+      if key_eqb k k' then
+        match v, ty with
+        | JNull, TItems => Some (FItems [] :: cur')      (* null sets a slice to nil *)
+        | JNull, _ => Some cur                           (* null has no effect otherwise *)
+        | _, _ => match dec_val ty v with Some y => Some (y :: cur') | None => None end
+        end
+      else
+        match set_field sch' k v cur' with
+        | Some c => Some (x :: c)
+        | None => None
+        end
+  | _, _ => Some cur                                     (* unknown member: skipped *)
+  end.
+
+(* one array element: an object is a rule, null a nil pointer *)
+Definition dec_rule (sch : schema) (v : jv) : option (option wrule) :=
+  match v with
+  | JNull => Some None
+  | JObj m => match dec_members (set_field sch) m (defaults sch) with Some r => Some (Some r) | None => None end
+  | _ => None
+  end.
+
+(* what the *JsonArrayParser returns: (nil, err) | (nil, nil) | (rules, nil) where rules is a nil
+   slice for the document `null` and may hold nil pointers *)
+Inductive dres := Undecodable | Empty | Rules (isnil : bool) (l : list (option wrule)).
 
 Definition decode (sch : schema) (s : jbytes) : dres :=
   match s with
   | [] => Empty
   | _ =>
       match parse s with
-      | Some d => match dec_rules sch d with Some l => Rules l | None => Undecodable end
-      | None => Undecodable
+      | Some JNull => Rules true []
+      | Some (JArr l) => match dec_all (dec_rule sch) l with Some rs => Rules false rs | None => Undecodable end
+      | _ => Undecodable
       end
   end.
 
-(* ---- the five wire schemas --------------------------------------------------------------------- *)
+(* ---- the five wire schemas (Go json tags, in struct order) ------------------------------------- *)
 
 Definition flow_schema : schema :=
-  [ (B "id", TStr); (B "resource", TStr); (B "tokenCalculateStrategy", TInt); (B "controlBehavior", TInt);
-    (B "threshold", TNum); (B "relationStrategy", TInt); (B "refResource", TStr);
-    (B "maxQueueingTimeMs", TInt); (B "warmUpPeriodSec", TInt); (B "warmUpColdFactor", TInt);
-    (B "statIntervalInMs", TInt); (B "lowMemUsageThreshold", TInt); (B "highMemUsageThreshold", TInt);
-    (B "memLowWaterMarkBytes", TInt); (B "memHighWaterMarkBytes", TInt) ].
+  [ (B "id", TStr); (B "resource", TStr); (B "tokenCalculateStrategy", i32); (B "controlBehavior", i32);
+    (B "threshold", TNum); (B "relationStrategy", i32); (B "refResource", TStr);
+    (B "maxQueueingTimeMs", u32); (B "warmUpPeriodSec", u32); (B "warmUpColdFactor", u32);
+    (B "statIntervalInMs", u32); (B "lowMemUsageThreshold", i64); (B "highMemUsageThreshold", i64);
+    (B "memLowWaterMarkBytes", i64); (B "memHighWaterMarkBytes", i64) ].
 
 Definition system_schema : schema :=
-  [ (B "id", TStr); (B "metricType", TInt); (B "triggerCount", TNum); (B "strategy", TInt) ].
+  [ (B "id", TStr); (B "metricType", u32); (B "triggerCount", TNum); (B "strategy", i32) ].
 
 Definition breaker_schema : schema :=
-  [ (B "id", TStr); (B "resource", TStr); (B "strategy", TInt); (B "retryTimeoutMs", TInt);
-    (B "minRequestAmount", TInt); (B "statIntervalMs", TInt); (B "statSlidingWindowBucketCount", TInt);
-    (B "maxAllowedRtMs", TInt); (B "threshold", TNum); (B "probeNum", TInt) ].
+  [ (B "id", TStr); (B "resource", TStr); (B "strategy", u32); (B "retryTimeoutMs", u32);
+    (B "minRequestAmount", u64); (B "statIntervalMs", u32); (B "statSlidingWindowBucketCount", u32);
+    (B "maxAllowedRtMs", u64); (B "threshold", TNum); (B "probeNum", u64) ].
 
 Definition hotspot_schema : schema :=
-  [ (B "id", TStr); (B "resource", TStr); (B "metricType", TInt); (B "controlBehavior", TInt);
-    (B "paramIndex", TInt); (B "threshold", TInt); (B "maxQueueingTimeMs", TInt); (B "burstCount", TInt);
-    (B "durationInSec", TInt); (B "paramsMaxCapacity", TInt); (B "specificItems", TItems) ].
+  [ (B "id", TStr); (B "resource", TStr); (B "metricType", i32); (B "controlBehavior", i32);
+    (B "paramIndex", i64); (B "paramKey", TStr); (B "threshold", i64); (B "maxQueueingTimeMs", i64);
+    (B "burstCount", i64); (B "durationInSec", i64); (B "paramsMaxCapacity", i64); (B "specificItems", TItems) ].
 
 Definition isolation_schema : schema :=
-  [ (B "id", TStr); (B "resource", TStr); (B "metricType", TInt); (B "threshold", TInt) ].
+  [ (B "id", TStr); (B "resource", TStr); (B "metricType", i32); (B "threshold", u32) ].
 
 Definition schema_of (k : Z) : schema :=
   if k =? 0 then flow_schema else if k =? 1 then system_schema else if k =? 2 then breaker_schema
@@ -398,13 +525,15 @@ Definition schema_of (k : Z) : schema :=
 
 Definition str_ok (s : jbytes) : bool := forallb is_strchar s.
 Definition lit_ok (t : jbytes) : bool := forallb is_numchar t && numlit_ok t.
+Definition in_range (lo hi z : Z) : bool := (lo <=? z) && (z <=? hi).
 
-Definition item_ok (it : item) : bool := let '(_, s, _) := it in str_ok s.
+Definition item_ok (it : item) : bool :=
+  let '(k, s, t) := it in in_range int_lo int_hi k && str_ok s && in_range int_lo int_hi t.
 
 Definition val_ok (ty : ftype) (v : fval) : bool :=
   match ty, v with
   | TStr, FStr s => str_ok s
-  | TInt, FInt _ => true
+  | TInt lo hi, FInt z => in_range lo hi z
   | TNum, FNum t => lit_ok t
   | TItems, FItems l => forallb item_ok l
   | _, _ => false
@@ -420,9 +549,103 @@ Fixpoint rule_ok (sch : schema) (r : wrule) : bool :=
 Fixpoint keys_distinct (ks : list jbytes) : bool :=
   match ks with
   | [] => true
-  | k :: r => negb (existsb (la_eqb k) r) && keys_distinct r
+  | k :: r => negb (existsb (key_eqb k) r) && keys_distinct r
   end.
 
 Definition schema_ok (sch : schema) : bool :=
-  match sch with [] => false | _ => true end &&
   forallb (fun kt => str_ok (fst kt)) sch && keys_distinct (map fst sch).
+
+(* ---- the byte alphabet on which the model speaks ---------------------------------------------- *)
+
+(* e / E followed by an optional sign and three or more digits *)
+Fixpoint big_exp (s : jbytes) : bool :=
+  match s with
+  | [] => false
+  | c :: r =>
+      (if Ascii.eqb c "e"%char || Ascii.eqb c "E"%char then
+         let r1 := match r with
+                   | d :: x => if Ascii.eqb d "+"%char || Ascii.eqb d "-"%char then x else r
+                   | [] => r
+                   end in
+         (3 <=? fst (skip_digits r1))%nat
+       else false) || big_exp r
+  end.
+
+Definition in_alphabet (c : ascii) : bool :=
+  let n := nat_of_ascii c in
+  ((32 <=? n)%nat && (n <=? 126)%nat && negb (Ascii.eqb c "\"%char)) || is_ws c.
+
+Definition in_subset (s : jbytes) : bool := forallb in_alphabet s && negb (big_exp s).
+
+(* ---- hotspot_rule_converter.go parseSpecificItems ---------------------------------------------- *)
+
+Inductive gkey := KInt (z : Z) | KStr (s : jbytes) | KBool (b : bool) | KFlt (bits : Z).
+
+Definition digit_val (c : ascii) : Z := Z.of_nat (nat_of_ascii c) - 48.
+
+Fixpoint digits_val (acc : Z) (s : jbytes) : option Z :=
+  match s with
+  | [] => Some acc
+  | c :: r => if is_digit c then digits_val (acc * 10 + digit_val c) r else None
+  end.
+
+(* strconv.Atoi: optional sign, one or more decimal digits, within int64 *)
+Definition atoi (s : jbytes) : option Z :=
+  let '(neg, ds) :=
+    match s with
+    | c :: r => if Ascii.eqb c "-"%char then (true, r) else if Ascii.eqb c "+"%char then (false, r) else (false, s)
+    | [] => (false, s)
+    end in
+  match ds with
+  | [] => None
+  | _ =>
+      match digits_val 0 ds with
+      | Some n => let z := if neg then - n else n in if in_range int_lo int_hi z then Some z else None
+      | None => None
+      end
+  end.
+
+(* strconv.ParseBool *)
+Definition parse_bool (s : jbytes) : option bool :=
+  if existsb (la_eqb s) [B "1"; B "t"; B "T"; B "TRUE"; B "true"; B "True"] then Some true
+  else if existsb (la_eqb s) [B "0"; B "f"; B "F"; B "FALSE"; B "false"; B "False"] then Some false
+  else None.
+
+Fixpoint blookup {T} (k : jbytes) (l : list (jbytes * T)) : option T :=
+  match l with
+  | [] => None
+  | (k', v) :: r => if la_eqb k k' then Some v else blookup k r
+  end.
+
+(* itab: valStr -> bits of ParseFloat(Sprintf("%.5f", ParseFloat(valStr))) or None when either
+   conversion fails — strconv/fmt, supplied by the harness *)
+Definition conv_key (itab : list (jbytes * option Z)) (it : item) : option gkey :=
+  let '(k, s, _) := it in
+  if k =? 0 then match atoi s with Some z => Some (KInt z) | None => None end
+  else if k =? 1 then Some (KStr s)
+  else if k =? 2 then match parse_bool s with Some b => Some (KBool b) | None => None end
+  else if k =? 3 then match blookup s itab with Some (Some b) => Some (KFlt b) | _ => None end
+  else None.
+
+Definition flt_is_nan (bits : Z) : bool := ((bits / 4503599627370496) mod 2048 =? 2047) && negb (bits mod 4503599627370496 =? 0).
+Definition flt_is_zero (bits : Z) : bool := (bits =? 0) || (bits =? 9223372036854775808).
+
+(* Go's == on two interface{} map keys *)
+Definition gkey_eq (a b : gkey) : bool :=
+  match a, b with
+  | KInt x, KInt y => x =? y
+  | KStr x, KStr y => la_eqb x y
+  | KBool x, KBool y => Bool.eqb x y
+  | KFlt x, KFlt y => negb (flt_is_nan x) && negb (flt_is_nan y) && ((x =? y) || (flt_is_zero x && flt_is_zero y))
+  | _, _ => false
+  end.
+
+(* ret[key] = threshold (an existing equal key is replaced, key included) *)
+Definition map_put (m : list (gkey * Z)) (k : gkey) (t : Z) : list (gkey * Z) :=
+  filter (fun e => negb (gkey_eq (fst e) k)) m ++ [(k, t)].
+
+Definition conv_items (itab : list (jbytes * option Z)) (l : list item) : list (gkey * Z) :=
+  fold_left (fun m it => match conv_key itab it with
+                         | Some k => map_put m k (snd it)
+                         | None => m             (* logged and skipped *)
+                         end) l [].
